@@ -27,6 +27,8 @@ enum Cmd {
     Set(&'static str, Option<bool>, Option<bool>),
     /// signal, new user disposition
     Trap(&'static str, &'static str, D),
+    /// `exec` of a program that does not exist: fails, and an interactive shell goes on as it was
+    ExecFails,
 }
 
 const SETS: [Cmd; 12] = [
@@ -53,6 +55,7 @@ fn commands() -> Vec<Cmd> {
         v.push(Cmd::Trap(s, "''", D::Ignore));
         v.push(Cmd::Trap(s, "-", D::Default));
     }
+    v.push(Cmd::ExecFails);
     v
 }
 
@@ -60,6 +63,7 @@ fn text(c: &Cmd) -> String {
     match c {
         Cmd::Set(t, _, _) => t.to_string(),
         Cmd::Trap(s, a, _) => format!("trap {a} {s}"),
+        Cmd::ExecFails => "exec /no/such/program".to_string(),
     }
 }
 
@@ -97,6 +101,10 @@ fn run_history(hist: &[Cmd], interactive: bool) -> (String, vsh::Run) {
 }
 
 fn judge(ctx: &Ctx, hist: &[Cmd], interactive: bool) -> bool {
+    // a non-interactive shell exits when `exec` fails: nothing to compare afterwards
+    if !interactive && hist.iter().any(|c| matches!(c, Cmd::ExecFails)) {
+        return true;
+    }
     let (script, r) = run_history(hist, interactive);
     let case = json!({"part": "d", "script": script, "interactive": interactive});
     if r.panic.is_some() || !matches!(r.end, End::Exited(_)) {
@@ -119,6 +127,7 @@ fn judge(ctx: &Ctx, hist: &[Cmd], interactive: bool) -> bool {
                 Cmd::Trap(s, _, d) => {
                     m.user.insert(s, d);
                 }
+                Cmd::ExecFails => {}
             }
         }
         let pfx = format!("snap {step} ");
